@@ -12,7 +12,7 @@
    [before r' r] (Run/C03.v) = r' is tried before r: type-specific before Default, then larger
    (= newer) id first. *)
 From SC Require Import Lib.Prelude Lib.Int Lib.Host Model.SmartAccount
-  Proofs.SmartAccount Proofs.SmartAccountInv Proofs.SmartAccountLimits Run.C03 Proofs.C03Monitor Proofs.C03Final Proofs.C03Threshold.
+  Proofs.SmartAccount Proofs.SmartAccountInv Proofs.SmartAccountLimits Run.C03 Proofs.C03Monitor Proofs.C03Table Proofs.C03Final Proofs.C03Threshold.
 From Coq Require Import Sorted.
 
 (* Soundness. In every reachable state, at every ledger position, for every supplied signature
@@ -207,6 +207,17 @@ Theorem C03_table_changes_only_when_authorised : forall c st cl,
 Proof. exact table_changes_only_when_authorised. Qed.
 Print Assumptions C03_table_changes_only_when_authorised.
 
+(* Only valid_until lapses.  Advancing the ledger by any amount leaves the table as it is, and a rule
+   that decides a context keeps deciding it (same supplied signers, same collaborator answers) at
+   every later ledger up to and including its own valid_until - forever when valid_until is None. *)
+Theorem C03_only_valid_until_lapses : forall c st n O supplied cx r,
+  decides O (s_acct st) (s_now st) supplied cx r ->
+  0 <= n -> match r_valid r with Some u => s_now st + n <= u | None => True end ->
+  let st' := fst (step c st (Advance n)) in
+  decides O (s_acct st') (s_now st + n) supplied cx r.
+Proof. exact only_valid_until_lapses. Qed.
+Print Assumptions C03_only_valid_until_lapses.
+
 (* With the shipped simple-threshold policy wired in (policy [real_thr] of the runs, modelled from
    policies/simple_threshold.rs: installed threshold per rule, 1 <= threshold <= signers at
    installation): a context decided by a rule that carries it is m-of-n - at least
@@ -350,6 +361,53 @@ Proof. vm_compute. reflexivity. Qed.
 (* ... a refusal although the signatures verify and a satisfied rule exists: rejected (converse direction) *)
 Example C03_monitor_rejects_spurious_refusal :
   check (forged (CheckAuth [(A0, SGood)] [0%N] [CCreate 0]) Fail) = (6%N, 6%N, 0%N).
+Proof. vm_compute. reflexivity. Qed.
+(* ... the table clauses: replace the OBSERVATION of the last item of a model-generated trace *)
+Fixpoint set_last_obs (f : obs -> obs) (l : list item) : list item :=
+  match l with
+  | [] => []
+  | [(cl, o, ob)] => [(cl, o, f ob)]
+  | x :: r => x :: set_last_obs f r
+  end.
+Definition forged_obs (last : call) (f : obs -> obs) : trace :=
+  (cfg15, set_last_obs f (snd (observe_model cfg15 types_ex (hist ++ [last])))).
+Definition drop_signers (id : Z) (ob : obs) : obs :=
+  mkObs (ob_now ob) (ob_count ob) (upd id (with_signers (fun _ => [])) (ob_rules ob)) (ob_ids ob).
+(* ledgers pass and a rule silently loses its signers (a lapsed storage entry): rejected by the monitor *)
+Example C03_monitor_rejects_lapsed_signers :
+  snd (fst (check (forged_obs (Advance 600000) (drop_signers 1)))) = 6%N.
+Proof. vm_compute. reflexivity. Qed.
+(* ledgers pass and a rule disappears although its valid_until is None: rejected *)
+Example C03_monitor_rejects_lapsed_rule :
+  snd (fst (check (forged_obs (Advance 4000000)
+    (fun ob => mkObs (ob_now ob) 2 (filter (fun r => negb (r_id r =? 2)) (ob_rules ob)) [(TDefault, Some [0]); (TCall 1, Some [1])])))) = 6%N.
+Proof. vm_compute. reflexivity. Qed.
+(* the count forgets the rules while they are still there: rejected *)
+Example C03_monitor_rejects_lapsed_count :
+  snd (fst (check (forged_obs (Advance 20) (fun ob => mkObs (ob_now ob) 0 (ob_rules ob) (ob_ids ob))))) = 6%N.
+Proof. vm_compute. reflexivity. Qed.
+(* a read-only call after which the per-type id list no longer names a stored rule: rejected *)
+Example C03_monitor_rejects_lapsed_id_list :
+  snd (fst (check (forged_obs (CheckAuth [] [] [])
+    (fun ob => mkObs (ob_now ob) (ob_count ob) (ob_rules ob) [(TDefault, Some [0]); (TCall 1, Some [2])])))) = 6%N.
+Proof. vm_compute. reflexivity. Qed.
+(* a new rule that re-uses id 0 (a forgotten next-id counter): rejected *)
+Example C03_monitor_rejects_reused_id :
+  snd (fst (check (cfg15, set_last_outcome (Ok (Some (mkRule 0 (TCall 2) 1%N None [A1] []), []))
+      (set_last_obs (fun ob => mkObs (ob_now ob) 3 [mkRule 0 (TCall 2) 1%N None [A1] []; r1; r2] [(TDefault, Some []); (TCall 1, Some [1; 2])])
+         (snd (observe_model cfg15 types_ex (hist ++ [Admin admin_sig [0%N] (AddRule (TCall 2) 1%N None [A1] [])]))))))) = 6%N.
+Proof. vm_compute. reflexivity. Qed.
+(* a second rule with the fingerprint of an existing one (a forgotten fingerprint entry): rejected *)
+Example C03_monitor_rejects_duplicate_fingerprint :
+  snd (fst (check (cfg15, set_last_outcome (Ok (Some (mkRule 3 TDefault 1%N None [A0] []), []))
+      (set_last_obs (fun ob => mkObs (ob_now ob) 4 (ob_rules ob ++ [mkRule 3 TDefault 1%N None [A0] []]) [(TDefault, Some [0; 3]); (TCall 1, Some [1; 2])])
+         (snd (observe_model cfg15 types_ex (hist ++ [Admin admin_sig [0%N] (AddRule TDefault 1%N None [A0] [])]))))))) = 6%N.
+Proof. vm_compute. reflexivity. Qed.
+(* an edit other than the requested one (remove_signer drops the wrong signer): rejected *)
+Example C03_monitor_rejects_wrong_edit :
+  snd (fst (check (cfg15, set_last_outcome (Ok (None, []))
+      (set_last_obs (fun ob => mkObs (ob_now ob) (ob_count ob) (upd 1 (with_signers (fun _ => [X0])) (ob_rules ob)) (ob_ids ob))
+         (snd (observe_model cfg15 types_ex (hist ++ [Admin admin_sig [0%N] (RemoveSigner 1 X0)]))))))) = 6%N.
 Proof. vm_compute. reflexivity. Qed.
 (* ... an entry point of the account that runs although its own authorisation check cannot pass: rejected *)
 Example C03_monitor_rejects_unauthorised_admin :
